@@ -24,6 +24,7 @@ import tempfile
 from concurrent.futures import ThreadPoolExecutor
 
 import gdiff
+import term
 import vlib
 
 PID = "C18"
@@ -217,6 +218,49 @@ def main(tier, replay=None):
             why.append(f"{kind}: the rendered output ({len(out)} bytes) is not the whole rendering ({len(plain)} bytes)")
         if why:
             chk.violation({"property": PID, "shape": "status", "why": "; ".join(why), "case": [kind, args, env, want], "stderr": err[-300:].decode("utf-8", "replace")})
+    # ---------------------------------------------------------------- B2: two files with the real differ (git / diff of the
+    #      sandbox): operands as ordinary files or as /dev/fd/N (process substitution); status 0 and no output for equal
+    #      contents, status 1 and the changed lines shown for different contents
+    if not rp or rp.get("shape") == "real-differ":
+        rcases = []
+        if rp:
+            rcases = [rp["case"]]
+        else:
+            for same in (True, False):
+                for form in ("ff", "fp", "pf", "pp"):     # f = file, p = pipe given as /dev/fd/N
+                    rcases.append({"same": same, "form": form})
+        for c in rcases:
+            ta = "alpha\nbeta Tq1x\ngamma\n"
+            tb = ta if c["same"] else "alpha\nBETA Tq2x\ngamma\n"
+            fds, ops = [], []
+            for side, text in zip(c["form"], (ta, tb)):
+                if side == "f":
+                    pth = tempfile.mktemp(dir=vlib.CACHE, prefix="real")
+                    open(pth, "w").write(text)
+                    ops.append(pth)
+                else:
+                    rfd, wfd = os.pipe()
+                    os.write(wfd, text.encode())
+                    os.close(wfd)
+                    os.set_inheritable(rfd, True)
+                    fds.append(rfd)
+                    ops.append("/dev/fd/%d" % rfd)
+            rc, out, err = vlib.run_delta(["--no-gitconfig", "--paging", "never"] + ops, env_extra={"PATH": "/usr/bin:/bin"}, pass_fds=tuple(fds))
+            for fd in fds:
+                os.close(fd)
+            for o in ops:
+                if not o.startswith("/dev/fd/"):
+                    os.unlink(o)
+            chk.case(("real-differ", c["same"], c["form"]), True, None)
+            chk.count("status:real-differ")
+            vis = term.strip(out)
+            why = []
+            if c["same"] and (rc != 0 or vis.strip()):
+                why.append(f"equal contents ({c['form']}): exit status {rc}, {len(out)} bytes of output; expected 0 and nothing")
+            if not c["same"] and (rc != 1 or "Tq1x" not in vis or "Tq2x" not in vis):
+                why.append(f"different contents ({c['form']}): exit status {rc}, changed lines shown: {'Tq1x' in vis} / {'Tq2x' in vis}; expected 1 and both")
+            if why:
+                chk.violation({"property": PID, "shape": "real-differ", "why": "; ".join(why), "case": c, "output": vis[:600], "stderr": err[-300:].decode("utf-8", "replace")})
     # ---------------------------------------------------------------- C: fault enumeration
     shim = os.path.join(vlib.BIN, "epipe_shim.so")
     fcases = []     # (label, args, env, stdin)
